@@ -133,6 +133,10 @@ size_t simrt_drain_states(uint64_t* out, size_t cap);
 // outside a run.
 void simrt_watchdog_start(int seconds);
 
+// number of ThreadSanitizer reports so far in this process (the runtime's weak hook __tsan_on_report lives in the
+// uninstrumented object: an instrumented hook would race on its own counter and deadlock inside the report path)
+int simrt_tsan_reports(void);
+
 // watchdog heartbeat (monotone; changes whenever the scheduler makes progress)
 uint64_t simrt_heartbeat(void);
 }
